@@ -55,6 +55,54 @@ def tiny():
     return _cache["tiny"]
 
 
+def tiny_deep():
+    """Top(a: Mid) as a CONCRETE start symbol, Mid -> Wrap(e: Root), Root as in tiny(): the shallowest program is three
+    levels deep, so an initialiser that starts at depth 1 has to work its way up."""
+    if "deep" in _cache:
+        return _cache["deep"]
+    from geneticengine.grammar.grammar import extract_grammar
+    from geneticengine.grammar.metahandlers.ints import IntRange
+
+    modname = "gev_tiny_deep_grammar"
+    mod = types.ModuleType(modname)
+    sys.modules[modname] = mod
+
+    class Root(ABC):
+        pass
+
+    class Mid(ABC):
+        pass
+
+    @dataclass
+    class Leaf(Root):
+        pass
+
+    @dataclass
+    class Lit(Root):
+        v: Annotated[int, IntRange(0, 9)]
+
+    @dataclass
+    class Plus(Root):
+        l: Root  # noqa: E741
+        r: Root
+
+    @dataclass
+    class Wrap(Mid):
+        e: Root
+
+    @dataclass
+    class Top:
+        a: Mid
+
+    for c in (Root, Mid, Leaf, Lit, Plus, Wrap, Top):
+        c.__module__ = modname
+        c.__qualname__ = c.__name__
+        setattr(mod, c.__name__, c)
+    g = extract_grammar([Leaf, Lit, Plus, Wrap, Top], Top)
+    _cache["deep"] = (g, mod)
+    return _cache["deep"]
+
+
 def text(p, d=0) -> str:
     """Canonical text of a tiny-grammar program."""
     n = type(p).__name__
@@ -66,6 +114,10 @@ def text(p, d=0) -> str:
         return f"Plus({text(p.l, d + 1)},{text(p.r, d + 1)})"
     if n == "Neg":
         return f"Neg({text(p.e, d + 1)})"
+    if n == "Wrap":
+        return f"Wrap({text(p.e, d + 1)})"
+    if n == "Top":
+        return f"Top({text(p.a, d + 1)})"
     return f"<{n}>"
 
 
